@@ -21,3 +21,4 @@ func verifAwaitAfterFunc(id int)
 func verifAtomic(f func())
 func verifLastRandN() int
 func verifLastRand() int
+func verifBoundSelectDefaults(n int)
